@@ -173,7 +173,7 @@ class JsonDocument : public detail::VariantOperators<const JsonDocument&> {
   ARDUINOJSON_DEPRECATED("use doc[key].is<T>() instead")
   detail::enable_if_t<detail::IsVariant<TVariant>::value, bool> containsKey(
       const TVariant& key) const {
-    return containsKey(key.template as<const char*>());
+    return containsKey(key.template as<JsonString>());
   }
 
   // Gets or sets a root object's member.
@@ -233,7 +233,7 @@ class JsonDocument : public detail::VariantOperators<const JsonDocument&> {
   detail::enable_if_t<detail::IsVariant<TVariant>::value, JsonVariantConst>
   operator[](const TVariant& key) const {
     if (key.template is<const char*>())
-      return operator[](key.template as<const char*>());
+      return operator[](key.template as<JsonString>());
     if (key.template is<size_t>())
       return operator[](key.template as<size_t>());
     return {};
@@ -300,7 +300,7 @@ class JsonDocument : public detail::VariantOperators<const JsonDocument&> {
   detail::enable_if_t<detail::IsVariant<TVariant>::value> remove(
       const TVariant& key) {
     if (key.template is<const char*>())
-      remove(key.template as<const char*>());
+      remove(key.template as<JsonString>());
     if (key.template is<size_t>())
       remove(key.template as<size_t>());
   }
